@@ -331,6 +331,8 @@ func c04(c *Ctx) {
 	c04PendingInput(c)
 	c04ReporterQueues(c)
 	c04BodyConsumed(c)
+	// a datagram (and the peeked bytes) is served to the end: what did not fit one Read is kept for the next (shared with C08)
+	c08ReadKeepsRemainder(c)
 	// the dispatcher's peek connection sits between the listener and every service of a shared port: what it peeked it replays in full (shared with C08)
 	if peekT, peek, pread := p.Type("server", "peekConnection"), p.Method("server", "peekConnection", "Peek"), p.Method("server", "peekConnection", "Read"); c.Anchor(peekT != nil && peek != nil && pread != nil, "peek-replay", "server.peekConnection with Peek and Read") {
 		c08Peek(c, peek, pread, peekT)
